@@ -236,6 +236,13 @@ def gen_case(rng, tier, index):
                 vals.append(boundary_values(rng, *R.kind_range(k, ptr)))
         c.update(space=space, name=name, vals=vals, bad_index=i,
                  bad_kind=kinds[i])
+        if rng.random() < 0.5:
+            # history: a valid object is built and encoded, the operand is
+            # then updated in place (the objects are mutable dataclasses),
+            # and the object - or the instruction whose expression holds
+            # it - is encoded again
+            c["mutate"] = {"good": boundary_values(rng, lo, hi),
+                           "wrap": space == "op" and rng.random() < 0.4}
     elif kind == "trunc":
         space = rng.choice(["op", "cfa"])
         c["space"] = space
@@ -434,11 +441,27 @@ def run_case(c):
     elif kind == "range":
         space, name, vals = c["space"], c["name"], c["vals"]
         ctr["range_probes"] = 1
+        mut = c.get("mutate")
         try:
-            if space == "op":
-                obj = getattr(expr, OP_CLASS[name])(*vals)
+            cls = getattr(expr, OP_CLASS[name]) if space == "op" else \
+                getattr(cfi, CFA_CLASS[name])
+            if mut is None:
+                obj = cls(*vals)
             else:
-                obj = getattr(cfi, CFA_CLASS[name])(*vals)
+                good = list(vals)
+                good[c["bad_index"]] = mut["good"]
+                inner = cls(*good)
+                obj = cfi.InstExpression(3, [expr.OpDup(), inner]) \
+                    if mut["wrap"] else inner
+                try:
+                    obj.encode(order, ptr)
+                except Exception as e:  # noqa
+                    return {"sig": None, "violations": [{
+                        "key": f"in-range-rejected:{type(e).__name__}",
+                        "msg": f"{name}{good}: {e!r}"}], "counters": ctr}
+                fld = dataclasses.fields(inner)[c["bad_index"]].name
+                setattr(inner, fld, vals[c["bad_index"]])
+                ctr["range_probes_after_update"] = 1
             enc = obj.encode(order, ptr)
             viol.append({
                 "key": f"out-of-range-accepted:{c['bad_kind']}",
@@ -450,7 +473,9 @@ def run_case(c):
                 "key": f"out-of-range-raises-{type(e).__name__}:"
                        f"{c['bad_kind']}",
                 "msg": f"{name}{vals}: {e!r}"})
-        sig = f"range:{name}:{c['bad_index']}:" + bclass(vals[c["bad_index"]])
+        sig = f"range:{name}:{c['bad_index']}:" + bclass(
+            vals[c["bad_index"]]) + (
+            "" if mut is None else ":updated" + ":nested" * mut["wrap"])
     elif kind == "trunc":
         space = c["space"]
         obj = c["obj"]
